@@ -75,14 +75,9 @@ theorem ruleSteps_kinds {cx : Ctx} (hf : cx.fx.kindIdentErr = true) :
     unfold ruleSteps at h
     obtain ⟨st1, h1, h2⟩ := Outcome.bind_eq_ok.mp h
     refine ruleSteps_kinds hf ?_ h2
-    unfold ruleStep at h1
-    split at h1
-    · cases h1
-    · split at h1
-      · cases h1
-      · split at h1
-        · exact altSteps_kinds hf hx h1
-        · exact altSteps_kinds (st := { st with nextNt := st.nextNt + 1 }) hf hx h1
+    rcases ruleStep_ok h1 with ⟨nt, hfn, h1⟩ | ⟨hfn, h1⟩
+    · exact altSteps_kinds hf hx h1
+    · exact altSteps_kinds (st := { st with nextNt := st.nextNt + 1 }) hf hx h1
 
 theorem createAug_kinds {a b : Name} {st : XSt} (hx : KindsOk st.prods) : KindsOk (createAug a b st).prods := by
   show KindsOk (st.prods ++ [_])
